@@ -16,6 +16,10 @@ except OSError:
     pass
 
 SIGNED = set(open(os.path.join(VERIF, 'claimed.txt')).read().split())
+_missing = sorted(x for x in SIGNED if x not in P.PROPS)
+if _missing:
+    # a props file that does not load must never silently drop a claimed check from the manifest
+    sys.exit('gen_manifest: claimed properties without a loadable engine/props_d file: %s - MANIFEST.json left untouched' % _missing)
 TECH = {
     'C01': 'property-based testing: rapidcheck cases on all four tasking backends, per-index counting oracle, ASan/UBSan',
     'C02': 'property-based testing: rapidcheck cases and forked configuration histories on all four backends, exactly-once / value / lifetime oracles, ASan/UBSan/LSan; wake-up stress rounds',
